@@ -33,7 +33,12 @@ use vutil::*;
 
 const S: u32 = 10; // scale of the expansion identity
 const T: u32 = 16; // scale of box / sum / KKT
-const WATCHDOG_SECS: u64 = 40;
+const WATCHDOG_DEFAULT_SECS: u64 = 40;
+
+/// seconds a single fit may take before it is recorded as `timeout` (C10_WATCHDOG overrides)
+fn watchdog_secs() -> u64 {
+    std::env::var("C10_WATCHDOG").ok().and_then(|v| v.parse().ok()).unwrap_or(WATCHDOG_DEFAULT_SECS)
+}
 
 // ------------------------------------------------------------------------------------------
 // kernels: the library's four kernels behind one enum, so that one code path serves all
@@ -234,7 +239,7 @@ fn svc_event(run: i64, src: &str, inp: Value) -> Value {
     let n = x.len();
     let ptsc = pts.clone();
     let kdc = kd.clone();
-    let r = watchdog(WATCHDOG_SECS, move || {
+    let r = watchdog(watchdog_secs(), move || {
         let xm = matrix(&x);
         let pm = matrix(&ptsc);
         let kernel = kernel_of(&kdc);
@@ -296,7 +301,7 @@ fn svr_event(run: i64, src: &str, inp: Value) -> Value {
     let n = x.len();
     let ptsc = pts.clone();
     let kdc = kd.clone();
-    let r = watchdog(WATCHDOG_SECS, move || {
+    let r = watchdog(watchdog_secs(), move || {
         let xm = matrix(&x);
         let pm = matrix(&ptsc);
         let kernel = kernel_of(&kdc);
@@ -332,6 +337,53 @@ fn svr_event(run: i64, src: &str, inp: Value) -> Value {
         }
     };
     json!({"run": run, "ev": "SvrFit", "src": src, "status": status, "in": inp, "out": out})
+}
+
+
+// ------------------------------------------------------------------------------------------
+// execution: inputs are prepared sequentially (seeded), fits run on a few OS threads (each fit
+// still under its own vutil::watchdog thread, which also owns the thread-local schedule
+// queue), events are written in input order
+// ------------------------------------------------------------------------------------------
+struct Job {
+    run: i64,
+    src: &'static str,
+    svr: bool,
+    inp: Value,
+}
+
+fn run_jobs(jobs: Vec<Job>, out: &mut Out) {
+    let nthreads = 6usize;
+    let n = jobs.len();
+    let jobs = std::sync::Arc::new(jobs);
+    let next = std::sync::Arc::new(std::sync::atomic::AtomicUsize::new(0));
+    let mut handles = Vec::new();
+    for _ in 0..nthreads {
+        let jobs = jobs.clone();
+        let next = next.clone();
+        handles.push(std::thread::spawn(move || {
+            let mut done: Vec<(usize, Value)> = Vec::new();
+            loop {
+                let i = next.fetch_add(1, std::sync::atomic::Ordering::SeqCst);
+                if i >= jobs.len() {
+                    break;
+                }
+                let j = &jobs[i];
+                let e = if j.svr { svr_event(j.run, j.src, j.inp.clone()) } else { svc_event(j.run, j.src, j.inp.clone()) };
+                done.push((i, e));
+            }
+            done
+        }));
+    }
+    let mut all: Vec<Option<Value>> = (0..n).map(|_| None).collect();
+    for h in handles {
+        for (i, e) in h.join().expect("worker thread failed") {
+            all[i] = Some(e);
+        }
+    }
+    for e in all {
+        out.emit(e.expect("missing event"));
+    }
 }
 
 // ------------------------------------------------------------------------------------------
@@ -417,16 +469,15 @@ fn rand_kernel(r: &mut StdRng, svr_psd: bool) -> Value {
 
 /// two-class integer data: separable (kind 0), overlapping (kind 1), with duplicated rows of
 /// opposite class (kind 2)
-fn rand_svc_data(r: &mut StdRng, n: usize, p: usize, kind: u32) -> (Vec<Vec<i64>>, Vec<bool>) {
+fn rand_svc_data(r: &mut StdRng, n: usize, p: usize, kind: u32, a: i64) -> (Vec<Vec<i64>>, Vec<bool>) {
     loop {
-        let a = 3;
         let wv: Vec<i64> = loop {
             let w = rand_row(r, p, 2);
             if w.iter().any(|&v| v != 0) {
                 break w;
             }
         };
-        let t = r.gen_range(-2..=2);
+        let t = r.gen_range(-2..=2) * (a / 3).max(1);
         let mut x: Vec<Vec<i64>> = (0..n).map(|_| rand_row(r, p, a)).collect();
         let mut pos: Vec<bool> =
             x.iter().map(|row| row.iter().zip(&wv).map(|(a, b)| a * b).sum::<i64>() > t).collect();
@@ -451,6 +502,11 @@ fn rand_svc_data(r: &mut StdRng, n: usize, p: usize, kind: u32) -> (Vec<Vec<i64>
             return (x, pos);
         }
     }
+}
+
+/// feature amplitude of the it-th random fit (probe: C10_AMP overrides)
+fn amp_of(_it: usize) -> i64 {
+    std::env::var("C10_AMP").ok().and_then(|v| v.parse().ok()).unwrap_or(3)
 }
 
 fn rand_perm(r: &mut StdRng, n: usize) -> Vec<usize> {
@@ -508,9 +564,9 @@ fn gen_replay_spec(spec_file: &str, out: &mut Out) {
     // lines {"n":4,"epochs":1,"orders":[[..],[..]]} printed by TLC from SvmSchedule.tla
     let lines = read_ndjson(spec_file);
     let seed = seed();
-    let th = thorough();
     let mut run = 0i64;
     let kernels = table_kernels();
+    let mut jobs: Vec<Job> = Vec::new();
     for (li, l) in lines.iter().enumerate() {
         let n = l["n"].as_u64().unwrap() as usize;
         let epochs = l["epochs"].as_u64().unwrap() as usize;
@@ -523,9 +579,8 @@ fn gen_replay_spec(spec_file: &str, out: &mut Out) {
         let sets = table_sets(n);
         // every schedule meets every kernel; the data set / C / label encoding rotate with the
         // schedule number and the seed so that, over the seeds, every combination is visited.
-        // the one-epoch schedules of four rows (the quick scope) meet two data sets per kernel in
-        // the thorough tier
-        let reps = if th && n == 4 && epochs == 1 { 2 } else { 1 };
+        // the one-epoch schedules of four rows (the quick scope) meet two data sets per kernel
+        let reps = if n == 4 && epochs == 1 { 2 } else { 1 };
         for (ki, k) in kernels.iter().enumerate() {
             for rep in 0..reps {
                 let h = (li as u64)
@@ -539,10 +594,11 @@ fn gen_replay_spec(spec_file: &str, out: &mut Out) {
                 let q: Vec<Vec<i64>> = vec![vec![0; p], vec![1; p], (0..p as i64).map(|j| j - 1).collect()];
                 run += 1;
                 let inp = svc_input(x, pos, lab, c, k.clone(), epochs, 10, sched.clone(), q);
-                out.emit(svc_event(run, "sched", inp));
+                jobs.push(Job { run, src: "sched", svr: false, inp });
             }
         }
     }
+    run_jobs(jobs, out);
 }
 
 fn gen_svc(out: &mut Out) {
@@ -550,6 +606,7 @@ fn gen_svc(out: &mut Out) {
     let th = thorough();
     let cnt = if th { 6000 } else { 1100 };
     let mut run = 1_000_000i64;
+    let mut jobs: Vec<Job> = Vec::new();
     for it in 0..cnt {
         let big = it % 10 == 0;
         let n = if big {
@@ -559,7 +616,8 @@ fn gen_svc(out: &mut Out) {
         };
         let p = r.gen_range(1..=5usize);
         let kind = r.gen_range(0..3u32);
-        let (x, pos) = rand_svc_data(&mut r, n, p, kind);
+        let amp = amp_of(it);
+        let (x, pos) = rand_svc_data(&mut r, n, p, kind, amp);
         let lab = *LABELS.choose(&mut r).unwrap();
         let c = *CS.choose(&mut r).unwrap();
         let k = rand_kernel(&mut r, false);
@@ -572,8 +630,9 @@ fn gen_svc(out: &mut Out) {
         let q: Vec<Vec<i64>> = (0..nq).map(|_| rand_row(&mut r, p, 4)).collect();
         run += 1;
         let inp = svc_input(&x, &pos, lab, c, k, epochs, tol_e, sched, q);
-        out.emit(svc_event(run, if unseeded { "unseeded" } else { "rand" }, inp));
+        jobs.push(Job { run, src: if unseeded { "unseeded" } else { "rand" }, svr: false, inp });
     }
+    run_jobs(jobs, out);
 }
 
 fn gen_svr(out: &mut Out) {
@@ -581,6 +640,7 @@ fn gen_svr(out: &mut Out) {
     let th = thorough();
     let cnt = if th { 5000 } else { 900 };
     let mut run = 2_000_000i64;
+    let mut jobs: Vec<Job> = Vec::new();
     for it in 0..cnt {
         let big = it % 10 == 0;
         let n = if big {
@@ -589,7 +649,8 @@ fn gen_svr(out: &mut Out) {
             r.gen_range(4..=if th { 20 } else { 12 })
         };
         let p = r.gen_range(1..=5usize);
-        let mut x: Vec<Vec<i64>> = (0..n).map(|_| rand_row(&mut r, p, 3)).collect();
+        let amp = amp_of(it);
+        let mut x: Vec<Vec<i64>> = (0..n).map(|_| rand_row(&mut r, p, amp)).collect();
         // targets: multiples of 1/4; linear in x plus bounded noise, or a bump, or constant
         let wv = rand_row(&mut r, p, 2);
         let shape = r.gen_range(0..4u32);
@@ -630,8 +691,9 @@ fn gen_svr(out: &mut Out) {
         run += 1;
         let inp = json!({"X": x, "y16": y16, "Q": q, "Cn": c.0, "Cd": c.1, "C16": c.0 * 65536 / c.1,
                          "eps16": eps16, "tol16": tol16, "kernel": k});
-        out.emit(svr_event(run, "rand", inp));
+        jobs.push(Job { run, src: "rand", svr: true, inp });
     }
+    run_jobs(jobs, out);
 }
 
 fn all_vectors(p: usize, a: i64) -> Vec<Vec<i64>> {
@@ -721,13 +783,14 @@ fn gen_kernel(out: &mut Out) {
     //     anchored by the Taylor enclosures at the small arguments.
     let chains = if th { 60 } else { 18 };
     for it in 0..chains {
-        let m = r.gen_range(3..=5usize);
+        let m = if it < 3 { 5 } else { r.gen_range(3..=5usize) };
         let x: Vec<Vec<i64>> = (0..=m).map(|k| (0..m).map(|j| if j < k { 1 } else { 0 }).collect()).collect();
         let (k, sc) = match it % 3 {
             0 => (kdesc("rbf", 1, 1, *[1i64, 2, 4, 8].choose(&mut r).unwrap(), 0, 1), 12),
             1 => (kdesc("rbf", 1, *[1i64, 3].choose(&mut r).unwrap(), *[16i64, 32, 64].choose(&mut r).unwrap(), 0, 1), 12),
             _ => (kdesc("sigmoid", 1, 1, *[4i64, 8, 16, 32].choose(&mut r).unwrap(),
-                        *[0i64, 0, 1, -1].choose(&mut r).unwrap(), *[1i64, 4].choose(&mut r).unwrap()), 9),
+                        if it < 3 { 0 } else { *[0i64, 0, 1, -1].choose(&mut r).unwrap() },
+                        *[1i64, 4].choose(&mut r).unwrap()), 9),
         };
         run += 1;
         out.emit(gram_event(run, json!({"kernel": k, "X": x, "S": sc})));
